@@ -38,6 +38,9 @@ func (f *Fragment) String() string {
 // Validate a type.
 func (f *Fragment) Validate(root *Root) (errs []error) {
 	errs = append(errs, f.SelBase.Validate(root)...)
+	if ref, _ := f.Condition.(*Ref); ref != nil {
+		errs = append(errs, valError(f.line, f.col, "type condition %s is not defined", ref.Name()))
+	}
 	for _, du := range f.Directives() {
 		errs = append(errs, root.validateDirUse(f.Name, Locate(f), du)...)
 	}
